@@ -22,6 +22,10 @@
 pub mod command;
 pub mod response;
 
+#[cfg(mpd_client_verif)]
+#[doc(hidden)]
+pub mod verif;
+
 mod connection;
 mod parser;
 
